@@ -141,8 +141,8 @@ type byzRun struct {
 }
 
 func unitC07byz(e common.Env, p *common.Part) {
-	p.Rule = "Byzantine members are one or more real disc.Member instances under the same identifier with filtered inputs and re-routed outputs, following targeted plans under which honest members can still complete: partition-and-lie (one Byzantine instance per honest group, partition healed at a PRNG instant), shadow coalition (Byzantine instances that hear only each other and a phantom of a silent member), two-faced without partition, outsider and member replaying every captured transmission under their own identity, response flood (several instances of one identifier answer replayed queries with different views after the victim completed), late surplus announcer (one member more than expected joins at a PRNG instant around the moment the views converge) and surplus at a decision point (the victim is held at a verif point of Synchronize while the surplus member announces itself); distinct key = (plan, parameters, seed); non-trivial when an honest member completed or a Byzantine transmission was processed by an honest member"
-	plans := []string{"partition-and-lie", "shadow-coalition", "two-faced", "replay", "response-flood", "shadow-coalition", "partition-and-lie", "late-surplus-announcer", "surplus-at-decision-point", "surplus-at-decision-point"}
+	p.Rule = "Byzantine members are one or more real disc.Member instances under the same identifier with filtered inputs and re-routed outputs, following targeted plans under which honest members can still complete: partition-and-lie (one Byzantine instance per honest group, partition healed at a PRNG instant), shadow coalition (Byzantine instances that hear only each other and a phantom of a silent member), two-faced without partition, outsider and member replaying every captured transmission under their own identity, response flood (several instances of one identifier answer replayed queries with different views after the victim completed), late surplus announcer (one member more than expected joins at a PRNG instant around the moment the views converge) surplus at a decision point (the victim is held at a verif point of Synchronize while the surplus member announces itself) and view rewrite at a decision point (while the victim is held there, a second instance of a session member that only ever heard silent phantoms announces a different view of the same length to it); distinct key = (plan, parameters, seed); non-trivial when an honest member completed or a Byzantine transmission was processed by an honest member"
+	plans := []string{"partition-and-lie", "shadow-coalition", "two-faced", "replay", "response-flood", "shadow-coalition", "partition-and-lie", "late-surplus-announcer", "surplus-at-decision-point", "surplus-at-decision-point", "view-rewrite-at-decision-point", "view-rewrite-at-decision-point"}
 	n := e.Pick(400, 6000)
 	for i := 0; i < n; i++ {
 		if !e.Mine(i) || p.ViolationCount() >= 3 {
@@ -281,6 +281,74 @@ func runByzPlan(plan string, idx int, rng *rand.Rand) byzRun {
 		close(h.release)
 		wg.Wait()
 		return byzRun{net: net, expected: E, note: fmt.Sprintf("expected=%d victim=%d held at %s=%v surplus=%d announcements processed=%d", E, victim.id, point, held, surplus, atomic.LoadInt32(&seen))}
+	case "view-rewrite-at-decision-point":
+		// session {V, ..., b} of E members; b's main instance behaves honestly towards the session. A second instance of b heard only
+		// E-1 phantoms (configured members that are silent towards everybody else), so its view has the same length E but other
+		// content. While V is HELD at a verif point of Synchronize, that instance announces its view to V; then V is released.
+		E := 2 + rng.Intn(3)
+		ids := pickIDs(rng, 2*E-1, idx%2 == 1)
+		rng.Shuffle(len(ids), func(i, j int) { ids[i], ids[j] = ids[j], ids[i] })
+		session, phantoms := ids[:E], ids[E:]
+		V, b := session[0], session[E-1]
+		universe := append([]uint16{}, ids...)
+		sort.Slice(universe, func(i, j int) bool { return universe[i] < universe[j] })
+		inSession, isPhantom := map[uint16]bool{}, map[uint16]bool{}
+		for _, x := range session {
+			inSession[x] = true
+		}
+		for _, x := range phantoms {
+			isPhantom[x] = true
+		}
+		net := newDnet(universe, rng)
+		point := []string{"sync.sizeChecked", "sync.beforeContinuation", "sync.viewsAgree"}[(idx/2)%3]
+		ctx, cancel := context.WithTimeout(context.Background(), 150*time.Millisecond)
+		defer cancel()
+		victim := net.add(V, "honest", true)
+		h := holdAt(victim, point)
+		defer dropHold(victim)
+		net.start(ctx, &wg, victim, topic, E, interval)
+		for _, o := range session[1 : E-1] {
+			net.start(ctx, &wg, net.add(o, "honest", true), topic, E, interval)
+		}
+		main := net.add(b, "byz-main", false)
+		main.hears = func(src uint16) bool { return inSession[src] }
+		main.speaksTo = func(dst uint16) bool { return inSession[dst] }
+		net.start(ctx, &wg, main, topic, E, interval)
+		var speak, told int32
+		alt := net.add(b, "byz-alt", false)
+		alt.hears = func(src uint16) bool { return isPhantom[src] }
+		alt.speaksTo = func(dst uint16) bool {
+			if dst == V && atomic.LoadInt32(&speak) == 1 {
+				atomic.AddInt32(&told, 1)
+				return true
+			}
+			return isPhantom[dst]
+		}
+		net.start(ctx, &wg, alt, topic, 2*E, interval) // never completes: keeps announcing what it heard
+		for _, ph := range phantoms {
+			pi := net.add(ph, "phantom", false)
+			pi.hears = func(src uint16) bool { return false }
+			pi.speaksTo = func(dst uint16) bool { return dst == b }
+			net.start(ctx, &wg, pi, topic, 2*E, interval)
+		}
+		held := false
+		select {
+		case <-h.arrived:
+			held = true
+			atomic.StoreInt32(&speak, 1)
+			deadline := time.Now().Add(60 * time.Millisecond)
+			for atomic.LoadInt32(&told) < 3 && time.Now().Before(deadline) {
+				time.Sleep(200 * time.Microsecond)
+			}
+			time.Sleep(1500 * time.Microsecond)
+		case <-ctx.Done():
+		}
+		close(h.release)
+		wg.Wait()
+		for _, ph := range phantoms {
+			net.sent.Delete(ph) // never transmitted towards an honest member
+		}
+		return byzRun{net: net, expected: E, note: fmt.Sprintf("expected=%d session=%v victim=%d held at %s=%v rewriting member=%d phantoms=%v announcements to the victim=%d", E, session, V, point, held, b, phantoms, atomic.LoadInt32(&told))}
 	case "shadow-coalition":
 		// universe: honest callers H, Byzantine b (and in odd runs a second one), phantom ph: a configured member that is silent
 		// towards the honest members but whose instance talks to the coalition. expected = coalition size incl. phantom.
